@@ -85,4 +85,56 @@ Section Hash.
   Definition needs_expand (count : nat) (t : table) : bool := Nat.leb (Nat.mul 2 (length t)) (Nat.add count 1).
   Definition t_prepare (count : nat) (t : table) : table :=
     if needs_expand count t then t_expand count t else t.
+
+  (* The four ways the code reaches the table of a map.  State = (vpm_hash_table, vpm_count); the
+     boolean result is "the key was found".
+       HSet k  : map_subtree(map, add = true, k)   (descend with set = true)
+       HLook k : map_subtree(map, add = false, k)  (descend with set = false: it expands, too)
+       HGet k  : map_get(map, k)                   (copy / YAML export: no expansion; an empty table
+                                                    is answered without touching it)
+       HDel k  : map_delete(map, k)                (count == 0 is answered first) *)
+  Inductive hop := HSet (k : bytes) | HLook (k : bytes) | HGet (k : bytes) | HDel (k : bytes).
+
+  Definition hstate := (table * nat)%type.
+  Definition h_empty : hstate := ([], O).
+
+  Definition h_step (s : hstate) (o : hop) : hstate * bool :=
+    let '(t, count) := s in
+    match o with
+    | HSet k =>
+        let t1 := t_prepare count t in
+        if t_found k t1 then ((t1, count), true) else ((t_insert k t1, S count), false)
+    | HLook k =>
+        let t1 := t_prepare count t in ((t1, count), t_found k t1)
+    | HGet k =>
+        (s, match t with [] => false | _ :: _ => t_found k t end)
+    | HDel k =>
+        match count with
+        | O => (s, false)
+        | S c => if t_found k t then ((t_delete k t, c), true) else (s, false)
+        end
+    end.
+
+  Fixpoint h_run (s : hstate) (ops : list hop) : hstate * list bool :=
+    match ops with
+    | [] => (s, [])
+    | o :: r => let '(s1, b) := h_step s o in let '(s2, bs) := h_run s1 r in (s2, b :: bs)
+    end.
 End Hash.
+
+(* CRC-32C as crc32c() of src/vnaproperty.c computes it: most significant bit first, polynomial
+   0x1EDC6F41, start value 0xFFFFFFFF (the callers pass -1), no final inversion.  The C code reads
+   crc32c_table[i]; crc_entry i is that entry computed from the polynomial (checks/C13.py compares
+   the 256 entries of the C source with this definition). *)
+Definition crc_poly : N := 517762881%N.          (* 0x1EDC6F41 *)
+Definition crc_mask : N := 4294967295%N.         (* 0xFFFFFFFF *)
+Fixpoint crc_bits (n : nat) (v : N) : N :=
+  match n with
+  | O => v
+  | S m => let v2 := N.land (N.shiftl v 1) crc_mask in
+           crc_bits m (if N.testbit v 31 then N.lxor v2 crc_poly else v2)
+  end.
+Definition crc_entry (i : N) : N := crc_bits 8 (N.shiftl i 24).
+Definition crc_byte (v b : N) : N :=
+  N.lxor (N.land (N.shiftl v 8) crc_mask) (crc_entry (N.lxor (N.shiftr v 24) b)).
+Definition crc32c (k : bytes) : N := fold_left crc_byte k crc_mask.
